@@ -178,6 +178,21 @@ class MoveProp(core.Prop):
                                     pre, cw, out = sess.call(kind, m, act, rep=rep)
                                     yield self._case(d2, sess.stat, pre, cw, out, self._tags(sess, pre, cw, out),
                                                      rep=sess.last_rep)
+        # what the small scopes never reach: a crowd of 13..18 agents piled on the cell next to the mover, and
+        # corridors longer than 128 and 256 cells with the mover far out
+        for desc in _extreme_worlds(rng, 6 if quick else 60):
+            try:
+                sess = MoveSession(desc)
+            except ValueError:
+                continue
+            pre0 = sess.w.dyn_wire()
+            m = desc["mover"]
+            for kind, arg in ([("move", (dr, dc)) for dr in (-1, 0, 1) for dc in (-1, 0, 1)] +
+                              [(k, a_) for k in ("cross", "drift") for a_ in range(5)]):
+                self._load_dyn(sess, pre0)
+                pre, cw, out = sess.call(kind, m, arg)
+                yield self._case(desc, sess.stat, pre, cw, out, self._tags(sess, pre, cw, out) + ["extreme:" + desc["family"]])
+
         # random op sequences
         nworlds = 300 if quick else 10000
         for _ in range(nworlds):
@@ -215,6 +230,34 @@ class MoveProp(core.Prop):
             raise ValueError("driver could not parse the implementation outcome")
         case.tags.append("preWInv:%d" % ms[2])
         return core.Verdict(wire.enc(model), ms[self.spec_idx] == 1, is_[self.spec_idx] == 1)
+
+
+def _extreme_worlds(rng, count):
+    for i in range(count):
+        mover = dict(gridw.AG_DEFAULT, enc=1, moving=True, move_range=1, has_orient=True, init_orient=rng.randint(1, 4))
+        one = lambda pos: {"pos": list(pos), "health": [1, 1], "ammo": 0, "orient": rng.randint(1, 4)}  # noqa: E731
+        if i % 2 == 0:
+            k = rng.randint(13, 18)                       # a crowd: all may overlap (one of them may not, sometimes)
+            rows, cols = rng.randint(1, 3), rng.randint(2, 3)
+            pile = (rng.randrange(rows), rng.randrange(cols))
+            free = [(r, c) for r in range(rows) for c in range(cols) if (r, c) != pile]
+            mpos = rng.choice(free)
+            odd = rng.random() < 0.3
+            agents = [mover] + [dict(gridw.AG_DEFAULT, enc=2) for _ in range(k)] + ([dict(gridw.AG_DEFAULT, enc=3)] if odd else [])
+            overlap = [[1, [1, 2]], [2, [2, 3]]]           # 1 may join 2, not 3
+            state = [one(mpos)] + [one(pile) for _ in range(k)] + ([one(pile)] if odd else [])
+            yield {"rows": rows, "cols": cols, "overlap": overlap, "agents": agents, "state": state, "mover": 0,
+                   "family": "crowd"}
+        else:
+            long = rng.choice([130, 200, 257, 300])
+            rows, cols = (rng.randint(1, 2), long) if rng.random() < 0.5 else (long, rng.randint(1, 2))
+            far = rng.choice([126, 127, 128, 129, 254, 255, 256, 257, long - 2, long - 1])
+            far = min(far, long - 1)
+            mpos = (rng.randrange(rows), far) if cols == long else (far, rng.randrange(cols))
+            other = dict(gridw.AG_DEFAULT, enc=2)
+            opos = (mpos[0], mpos[1] - 1) if cols == long else (mpos[0] - 1, mpos[1])
+            yield {"rows": rows, "cols": cols, "overlap": [], "agents": [mover, other],
+                   "state": [one(mpos), one(opos)], "mover": 0, "family": "long-grid"}
 
 
 def _retable(rng, sess, desc):
